@@ -93,7 +93,7 @@ PROPS = {
     },
     "C05": {
         "level": "exploration",
-        "cases": {"quick": 1600, "thorough": 30000},
+        "cases": {"quick": 4800, "thorough": 60000},
         "rule": "cases = generated sequences of 3-15 (thorough: up to 30) configuration requests against a CA whose held resources also change (ROA deltas with 0-6 additions "
         "and 0-5 removals mixing valid and invalid entries, implicit/explicit max length, out-of-range max length, AS0, duplicates inside one delta, same payload with another "
         "comment, removals of absent payloads; ASPA updates and provider updates; BGPsec updates incl. an invalidly self-signed CSR; child add/update incl. empty, superset, "
